@@ -4,10 +4,12 @@ import (
 	"github.com/tsawler/tabula/zzharness/props/c01"
 	"github.com/tsawler/tabula/zzharness/props/c03"
 	"github.com/tsawler/tabula/zzharness/props/c04"
+	"github.com/tsawler/tabula/zzharness/props/c10"
 )
 
 func registerAll() {
 	register(c01.New())
 	register(c03.New())
 	register(c04.New())
+	register(c10.New())
 }
